@@ -23,7 +23,9 @@ RULE = (
     "pressures), tau, M, p_initial, frac-face pressures down to ~12 psi, every pressure in psi / MPa / bar / Pa, both filter settings and window sizes; 'transform' cases: non-negative arrays "
     "spanning 1e-300..1e300 (and 0) through the square-root transform, its inverse and back - through Transform.transform, through transform_non_affine (the route of matplotlib composite transforms) and data -> display -> data on a real Axes. Non-trivial = a "
     "reservoir case with >= 2 drawn profiles, any comparison case, a transform array with >= 2 distinct positive "
-    "magnitudes. Distinct = hash of the case record."
+    "magnitudes. The comparison figure's Days column is 0..n-1, 1..n, weekly, a calendar with gaps or fractional (it is the "
+    "time axis when no filtering is requested); production tables may carry a water column with gaps and a comment column; "
+    "the plotting helpers are given plot_kwargs None / {} / transparency / line style. Distinct = hash of the case record."
 )
 ASSUMPTIONS = [
     "recovery rate 'is the time derivative of recovery' when every plotted value lies between the left and right difference quotients of the plotted recovery at that time (one-sided quotient at the ends), so any consistent derivative estimate passes",
@@ -44,7 +46,7 @@ def strategy_(draw):
         # half of the table-based reservoirs are simulated with a frac-face schedule (constant, falling or arbitrary:
         # with a rising frac-face pressure the profile's minimum is not at the fracture any more)
         c = draw(flowcase.sim_case(nx_max=40, max_steps=120, schedules=draw(st.booleans()), with_library=False, time_kinds=("uniform", "quadratic", "geometric", "random")))
-        c.update({"kind": kind, "every_frac": draw(st.floats(0.0, 1.1)), "rescale": draw(st.booleans()), "change_ticks": draw(st.booleans()), "own_axes": draw(st.booleans()), "pre_state": draw(st.sampled_from(["fresh", "fresh", "after-density-recovery", "after-interpolator"]))})
+        c.update({"kind": kind, "every_frac": draw(st.floats(0.0, 1.1)), "rescale": draw(st.booleans()), "change_ticks": draw(st.booleans()), "own_axes": draw(st.booleans()), "plot_kwargs": draw(st.sampled_from(["none", "none", "empty", "color", "style"])), "pre_state": draw(st.sampled_from(["fresh", "fresh", "after-density-recovery", "after-interpolator"]))})
         return c
     if kind == "transform":
         n = draw(st.integers(1, 30))
@@ -69,6 +71,9 @@ def strategy_(draw):
         "rate_seed": draw(st.integers(0, 10**6)),
         "index": draw(st.sampled_from(["range", "repeated", "offset"])),
         "index_period": draw(st.integers(5, 30)),
+        # the reported Days: daily from 0, daily from 1, weekly reports, a calendar with missing report days, fractional
+        "days_kind": draw(st.sampled_from(["0..n-1", "0..n-1", "from1", "weekly", "gapped", "fractional"])),
+        "extra_columns": draw(st.sampled_from(["none", "none", "nan-gaps", "strings-and-nan"])),
     }
 
 
@@ -176,8 +181,13 @@ def check_case(case) -> Result:
             every = max(1, int(round(case["every_frac"] * (nt + 5))))
             res.labels["cls"] = case["cls"]
             ax_in = plt.subplots()[1] if case["own_axes"] else None
+            # line styling handed through to Axes.plot (None, an empty dict, transparency, a line / marker style - not colour or label, which the helpers set themselves): the data
+            # carried by the lines does not depend on it
+            kw = {"none": None, "empty": {}, "color": {"alpha": 0.5, "zorder": 3}, "style": {"linestyle": "--", "marker": "o", "lw": 0.5}}[case.get("plot_kwargs", "none")]
+            res.labels["plot_kwargs"] = case.get("plot_kwargs", "none")
+            pk = (lambda: None if kw is None else dict(kw))  # noqa: E731 - a fresh dict per call
             # ---- pseudopressure profiles --------------------------------------------------------------
-            ax = lib("plot_pseudopressure", P.plot_pseudopressure, r.res, every=every, rescale=case["rescale"], ax=ax_in)
+            ax = lib("plot_pseudopressure", P.plot_pseudopressure, r.res, every=every, rescale=case["rescale"], ax=ax_in, plot_kwargs=pk())
             if ax_in is not None and ax is not ax_in:
                 res.bad("C20/uses-supplied-axes", "plot_pseudopressure did not draw on the supplied Axes")
             ls = _lines(ax)
@@ -218,7 +228,7 @@ def check_case(case) -> Result:
                     lib("recovery_factor_interpolator", r.res.recovery_factor_interpolator)
 
             _pre()
-            ax2 = lib("plot_recovery_factor", P.plot_recovery_factor, r.res, ax=plt.subplots()[1] if case["own_axes"] else None, change_ticks=case["change_ticks"])
+            ax2 = lib("plot_recovery_factor", P.plot_recovery_factor, r.res, ax=plt.subplots()[1] if case["own_axes"] else None, change_ticks=case["change_ticks"], plot_kwargs=pk())
             l2 = _lines(ax2)
             if len(l2) != 1 or not _same(l2[0][0], t) or not _same(l2[0][1], rf):
                 res.bad("C20/recovery-against-scaled-time", f"plot_recovery_factor drew {len(l2)} line(s) whose data differ from (time, recovery_factor())")
@@ -226,7 +236,7 @@ def check_case(case) -> Result:
                 res.bad("C20/recovery-against-scaled-time", f"x scale of the recovery plot is {ax2.get_xscale()!r}")
             # ---- recovery rate --------------------------------------------------------------------------
             _pre()
-            ax3 = lib("plot_recovery_rate", P.plot_recovery_rate, r.res, ax=plt.subplots()[1] if case["own_axes"] else None, change_ticks=case["change_ticks"])
+            ax3 = lib("plot_recovery_rate", P.plot_recovery_rate, r.res, ax=plt.subplots()[1] if case["own_axes"] else None, change_ticks=case["change_ticks"], plot_kwargs=pk())
             l3 = _lines(ax3)
             if len(l3) != 1 or not _same(l3[0][0], t):
                 res.bad("C20/rate-is-derivative-of-recovery", f"plot_recovery_rate drew {len(l3)} line(s) / x data is not the time axis")
@@ -262,6 +272,16 @@ def check_case(case) -> Result:
         pvt = pd.DataFrame(tab)
         p_i = case["p_i"] * unit
         days = np.arange(n, dtype=float)
+        dk = case.get("days_kind", "0..n-1")
+        if dk == "from1":
+            days = days + 1.0
+        elif dk == "weekly":
+            days = 1.0 + 7.0 * days
+        elif dk == "gapped":
+            days = days + np.cumsum(np.arange(n) % 7 == 3)
+        elif dk == "fractional":
+            days = 0.25 + 0.5 * days
+        res.labels["days_kind"] = dk
         third = n // 3
         pf = np.concatenate([np.full(third, case["levels"][0]), np.full(third, case["levels"][1]), np.full(n - 2 * third, case["levels"][2])]) * p_i
         rng = np.random.default_rng(case["rate_seed"])
@@ -272,6 +292,12 @@ def check_case(case) -> Result:
         if not case["filter"]:
             pres = pf.copy()  # unfiltered tables must not contain missing pressures
         prod = pd.DataFrame({"Days": days, "Gas": gas, "Pressure": pres})
+        extra = case.get("extra_columns", "none")
+        if extra != "none":  # further columns of a production export, with gaps on days that have gas and pressure
+            prod.insert(0, "Water", np.where(np.arange(n) % 3 == 1, np.nan, 1.0 + np.arange(n) % 5))
+            if extra == "strings-and-nan":
+                prod["Comment"] = [None if k % 4 else "shut in for workover" for k in range(n)]
+        res.labels["extra_columns"] = extra
         if case.get("index") == "repeated":  # row labels as from monthly files concatenated without ignore_index
             prod.index = np.arange(n) % case["index_period"]
         elif case.get("index") == "offset":
